@@ -1746,6 +1746,44 @@ func checkNotRunningErrors(c *Ctx) {
 	}
 	c.floor(rule, 9, "cache x5 (sync, update, refilter, List, Get), publisher.Subscribe, filterSubscription.Refilter, _watcher.reset, _subscription.send")
 	_ = n
+	// requests are handed over synchronously: no goroutine body sends on a channel field of an
+	// actor (two calls made one after the other must reach the loop in that order).  The one
+	// frozen exception is the unsubscribe watcher (K9 of the blocking inventory).
+	nsend := 0
+	for _, f := range c.P.SrcFuncs("") {
+		for _, b := range f.Blocks {
+			for _, in := range b.Instrs {
+				var chans []ssa.Value
+				switch x := in.(type) {
+				case *ssa.Send:
+					chans = append(chans, x.Chan)
+				case *ssa.Select:
+					for _, st := range x.States {
+						if st.Dir == types.SendOnly {
+							chans = append(chans, st.Chan)
+						}
+					}
+				}
+				for _, ch := range chans {
+					for _, key := range chanFieldKeys(c.P, ch, 0) {
+						nsend++
+						sn := spawnName(c.P, f)
+						if !strings.HasPrefix(sn, "go@") {
+							continue
+						}
+						if f.Name() == "run" && f.Signature.Recv() != nil {
+							continue // an actor's own loop sending on its own channels is the design (tables, T-CHAN(single-sender))
+						}
+						c.sites++
+						allowed := key == "publisher.unsubscribech" && sn == "go@publisher.createSubscription"
+						c.check(allowed, "T-CHAN(request-sync)", key+"/sent-from/"+sn, c.P.instrPos(in), "frozen exception: the unsubscribe watcher (K9)",
+							key+" is sent on from a spawned goroutine ("+fnName(f)+"): requests handed to an actor asynchronously can overtake each other, so the actor may apply an older request last")
+					}
+				}
+			}
+		}
+	}
+	c.check(nsend >= 10, "T-CHAN(request-sync)", "actor-channel-sends/sites", "-", fmt.Sprintf("%d sends on actor channel fields", nsend), fmt.Sprintf("only %d sends on actor channel fields found (anchor lost?)", nsend))
 }
 
 // checkCtorChannelCapacities: the request/hand-off channels the actors'
